@@ -12,6 +12,7 @@ let parse_gop tok =
   | 'P' -> if tok = "P" then Poll else failwith "bad op"
   | 'C' -> Complete (num tok 1)
   | 'G' -> PeerGoaway (num tok 1)
+  | 'V' -> Serve (num tok 1)
   | _ -> failwith ("bad op " ^ tok)
 let opt_code = function Some c -> string_of_n c | None -> "-"
 let show_out = function
@@ -69,6 +70,7 @@ let base f = match String.index_opt f '.' with Some i -> String.sub f 0 i | None
 let in_event = function
   | Arrive id -> EArrive id | Shutdown n -> EShutdown n | Poll -> EPoll
   | Complete id -> EComplete id | PeerGoaway p -> EPeerGoaway p
+  | Serve id -> EComplete id   (* no event of its own; EComplete is ignored by the monitor *)
 let handle ws =
   let ws = (match ws with f :: r -> base f :: r | [] -> []) in
   match ws with
